@@ -328,6 +328,12 @@ def run(ctx, scope="tokens"):
                 owner = e.site[0]
                 so = E.summary(owner) if owner in crate.fns else None
                 ok = so is not None and any(True for a in so.kill_elems)
+                if not ok and e.kind == "read" and owner in crate.fns and _bounded_walk(E, crate, owner, e.ap):
+                    ctx.ob("RESET-POOL", "%s|%s|%s|bounded" % (".".join(proj), e.kind, owner), True, e.site[1],
+                           "outer vector `%s` is walked only over a prefix bounded by the current "
+                           "sentence length (iter().skip(k).take(len_char ..)) in %s"
+                           % (".".join(proj), owner.split("::")[-1]))
+                    continue
                 ctx.ob("RESET-POOL", "%s|%s|%s" % (".".join(proj), e.kind, owner), ok, e.site[1],
                        "outer vector `%s` (history-dependent length) is %s only inside the "
                        "function that clears all of its elements (%s)"
@@ -341,6 +347,46 @@ def run(ctx, scope="tokens"):
                "their receiver; dependencies' internals are not analysed")
     ctx.assume("W2 accepts two forms: the location is refreshed by reset_sentence/tokenize, or "
                "the observer branches on the same emptiness predicate as tokenize's early return")
+
+
+def _bounded_walk(E, crate, owner, ap):
+    """Every whole-vector read of the pool in `owner` is a walk `pool.iter()[.skip(k)].take(n)` with
+    n derived from the current sentence length: the stale tail of the pool (elements of earlier,
+    longer sentences) is never reached. (Iterators are aliases of their source in the effect
+    model, so every adaptor and every `next` of the walk shows up as a use of the pool.)"""
+    from mir import callee_paths as cps, strip_generics as sg
+    from sym import Sym, show
+    fa = E.fa(owner)
+    S = Sym(E, fa)
+    PASS = {"deref", "iter", "into_iter", "skip", "take", "as_slice", "by_ref", "enumerate"}
+    n = 0
+    for b, t in fa.calls():
+        if not t["args"]:
+            continue
+        nm = {sg(x).rsplit("::", 1)[-1] for x in cps(t)}
+        a0 = E.ap_operand(fa, t["args"][0])
+        # the pool as the owner sees it (the event's path is in the frame of the entry point)
+        if a0 is None or a0.root[0] != "arg" or not a0.proj or a0.proj[-1] != ap.proj[-1] or \
+                len(a0.proj) > len(ap.proj):
+            continue
+        if nm & {"index", "get", "get_unchecked", "len"} or nm & PASS:
+            continue                    # positional reads are judged elsewhere; adaptors consume nothing
+        # a consumer (`next`, `for_each`, `fold`, ..): its iterator must come through a bounded take
+        cur, bounded = t["args"][0], False
+        for _ in range(10):
+            o = fa.origin(cur)
+            if o[0] != "call" or not o[2]["args"]:
+                break
+            on = {sg(x).rsplit("::", 1)[-1] for x in cps(o[2])}
+            if "take" in on and len(o[2]["args"]) == 2 and "len_char" in show(S.operand(o[2]["args"][1])):
+                bounded = True
+            if not (on & PASS):
+                break
+            cur = o[2]["args"][0]
+        if not bounded:
+            return False
+        n += 1
+    return n > 0
 
 
 def prefix_readers(ctx, crate, E):
